@@ -1,5 +1,6 @@
 import JominiModel.Props.C04
 #print axioms Jomini.Props.C04.C04_token_dispatch
+#print axioms Jomini.Props.C04.C04_u16_hint
 #print axioms Jomini.Props.C04.C04_rgb_dispatch
 #print axioms Jomini.Props.C04.C04_rgb_components
 #print axioms Jomini.Props.C04.C04_root_only_maps
